@@ -37,6 +37,7 @@ type c02Case struct {
 	Burst       []int  `json:"burst"`       // burst length per emitter
 	Attachments []int  `json:"attachments"` // attachments per event, per emitter (0..4)
 	Hook        bool   `json:"hook"`        // yield at packetQueue.add before the signal
+	History     string `json:"history"`     // s2c only: how the connection came to be: "" (one CONNECT) | two-at-once | rejected-first
 }
 
 func (c c02Case) class() string { return c.Dir + "," + c.Transport }
@@ -145,13 +146,15 @@ func evalC02Wire(c c02Case) (f *Failure, nontrivial bool) {
 			_ = server.Run()
 			var ss sio.ServerSocket
 			server.OnConnection(func(s sio.ServerSocket) { ss = s })
+			server.Of("/n2").Use(func(sio.ServerSocket, *sio.Handshake) any { time.Sleep(20 * time.Millisecond); return nil })
+			server.Of("/rej").Use(func(sio.ServerSocket, *sio.Handshake) any { return "no" })
 			hs := &http.Server{Handler: server}
 			go hs.Serve(net)
 			cli, err := eio.Dial("http://x/socket.io", &eio.Callbacks{OnPacket: func(ps ...*parser.Packet) {
 				var keep []*parser.Packet
 				for _, p := range ps {
-					if p.Type == parser.PacketTypeMessage && !p.IsBinary && len(p.Data) > 0 && p.Data[0] == '0' {
-						continue // the CONNECT reply
+					if p.Type == parser.PacketTypeMessage && !p.IsBinary && len(p.Data) > 0 && (p.Data[0] == '0' || p.Data[0] == '4') {
+						continue // a CONNECT reply / CONNECT_ERROR
 					}
 					keep = append(keep, p)
 				}
@@ -162,7 +165,18 @@ func evalC02Wire(c c02Case) (f *Failure, nontrivial bool) {
 				res = fail("rig-connect", "raw client dial: "+err.Error())
 			} else {
 				connect, _ := parser.NewPacket(parser.PacketTypeMessage, false, []byte("0"))
-				cli.Send(connect)
+				switch c.History {
+				case "two-at-once":
+					other, _ := parser.NewPacket(parser.PacketTypeMessage, false, []byte("0/n2,"))
+					cli.Send(other, connect)
+				case "rejected-first":
+					other, _ := parser.NewPacket(parser.PacketTypeMessage, false, []byte("0/rej,"))
+					cli.Send(other)
+					settle(50 * time.Millisecond)
+					cli.Send(connect)
+				default:
+					cli.Send(connect)
+				}
 				settle(0)
 				settle(2 * time.Second)
 				if ss == nil || (c.Transport == "upgrade" && !upgraded) {
@@ -243,6 +257,9 @@ func evalC02Wire(c c02Case) (f *Failure, nontrivial bool) {
 func genC02Case(t *rapid.T) c02Case {
 	c := c02Case{Dir: rapid.SampledFrom([]string{"c2s", "s2c"}).Draw(t, "dir"), Transport: rapid.SampledFrom([]string{"polling", "websocket", "upgrade"}).Draw(t, "transport"),
 		Emitters: rapid.SampledFrom([]int{1, 2, 2, 3, 4, 8, 16}).Draw(t, "emitters"), Hook: rapid.Bool().Draw(t, "hook")}
+	if c.Dir == "s2c" {
+		c.History = rapid.SampledFrom([]string{"", "", "two-at-once", "rejected-first"}).Draw(t, "history")
+	}
 	for g := 0; g < c.Emitters; g++ {
 		c.Burst = append(c.Burst, rapid.IntRange(1, 50/max(1, c.Emitters/4)).Draw(t, "burst"))
 		c.Attachments = append(c.Attachments, rapid.IntRange(0, 4).Draw(t, "att"))
